@@ -31,7 +31,7 @@ overflow `f64` (⇒ string).  Everything else must agree. -/
 def resolveAgrees (spec model : Scalar) : Bool :=
   match spec, model with
   | .int n, m => if -(2 : Int) ^ 63 ≤ n && n < (2 : Int) ^ 63 then m = .int n
-                 else (m = .float .finite || !m.isStr == false)
+                 else (m = .float .finite || m.isStr)
   | .float .finite, m => m = .float .finite || m.isStr
   | s, m => s = m
 
@@ -80,8 +80,8 @@ def exec (a : List String) : String :=
     | none => "BAD-UTF8"
     | some s =>
       let b (x : Bool) := if x then "1" else "0"
-      let ss := if s = [] then ['\'', '\''] else streamSmartQuoted s
-      s!"nq={b (needsYamlQuoting s)} num={b (looksLikeYamlNumber s)} ss={hexOfChars ss}"
+      let ss := if s = [] then ['\'', '\''] else streamSmartQuoted rev s
+      s!"nq={b (needsYamlQuoting rev s)} num={b (looksLikeYamlNumber s)} ss={hexOfChars ss}"
   | ["sdq", h] =>
     match chars? h with
     | none => "BAD-UTF8"
@@ -93,7 +93,7 @@ def exec (a : List String) : String :=
   | ["sbq", h] =>
     match chars? h with
     | none => "BAD-UTF8"
-    | some s => s!"{hexOfChars (streamSmartQuoted s)} REREAD-OK"
+    | some s => s!"{hexOfChars (streamSmartQuoted rev s)} REREAD-OK"
   | ["ssv", _doc, st, h] =>
     -- the style decision of `stream_yaml_string_value` for a source scalar of style `st`
     -- decoding to `h` (the harness obtains both from a real document)
